@@ -93,6 +93,9 @@ pub struct ElasticNetParamsBase<F, const MULTI_TASK: bool>(
 ///
 /// Returns [`InvalidTolerance`](ElasticNetError::InvalidTolerance) if the tolerance is negative.
 ///
+/// Returns [`InvalidMaxIterations`](ElasticNetError::InvalidMaxIterations) if the maximum number
+/// of iterations is zero.
+///
 /// # Example
 ///
 /// ```rust
@@ -248,6 +251,8 @@ impl<F: Float, const MULTI_TASK: bool> ParamGuard for ElasticNetParamsBase<F, MU
             Err(ElasticNetError::InvalidTolerance(
                 self.0.tolerance.to_f32().unwrap(),
             ))
+        } else if self.0.max_iterations == 0 {
+            Err(ElasticNetError::InvalidMaxIterations)
         } else {
             Ok(&self.0)
         }
